@@ -384,7 +384,7 @@ class HTMLParser(object):
             if nodeName in ("select", "colgroup", "head", "html"):
                 assert self.innerHTML
 
-            if nodeName in newModes:
+            if nodeName in newModes and not (last and nodeName in ("td", "th")):
                 new_phase = self.phases[newModes[nodeName]]
                 break
             elif last:
